@@ -102,7 +102,7 @@ func init() {
 				{Harness: "zzverif/zzh.ZZC15bParenStruct", Desc: "a type whose struct type is written in parentheses (type P (struct{...})): docs of the type and of its named field arbitrary over 17 spellings each: @immutable / @mutable take effect as for a bare struct type", Bounds: map[string]interface{}{"holes": 2, "alternatives": 17}},
 				{Harness: "zzverif/zzh.ZZC15bIgnoreLines6", Tier: "thorough", Desc: "the same with all six lines arbitrary at once (15625 combinations)", Bounds: map[string]interface{}{"lines": 6, "non_plain_at_a_time": 6}},
 				{Harness: "annotations.ZZC15Simple28", Tier: "thorough", Desc: "@immutable/@testonly/@mutable on 28-byte comments", Bounds: map[string]interface{}{"text_bytes": 28}, Setup: func(ex *eng.Explorer, tier string) { ex.TimeoutMS = 300000 }},
-				{Harness: "annotations.ZZC15Constructor30", Tier: "thorough", Desc: "@constructor on 30-byte comments", Bounds: map[string]interface{}{"text_bytes": 30, "list_items": "<= 7"}, Setup: func(ex *eng.Explorer, tier string) { ex.TimeoutMS = 300000; ex.MaxSplit = 7 }},
+				{Harness: "annotations.ZZC15Constructor27", Tier: "thorough", Desc: "@constructor on 27-byte comments (30 bytes with up to 7 list items did not finish: the split bound was exceeded after 23 min — reduced)", Bounds: map[string]interface{}{"text_bytes": 27, "list_items": "<= 8"}, Setup: func(ex *eng.Explorer, tier string) { ex.TimeoutMS = 300000; ex.MaxSplit = 8 }},
 				{Harness: "annotations.ZZC15Implements30", Tier: "thorough", Desc: "@implements on 30-byte comments", Bounds: map[string]interface{}{"text_bytes": 30}, Setup: func(ex *eng.Explorer, tier string) { ex.TimeoutMS = 300000 }},
 				{Harness: "zzverif/zzh.ZZC15bMutablePairs", Desc: "docs of two structs and of their same-named fields arbitrary at once (17 spellings each): @mutable belongs to the field of the struct whose own doc carries @immutable", Bounds: map[string]interface{}{"sites": 4, "alternatives": 17}},
 				{Harness: "annotations.ZZC15Implements24", Desc: "@implements: recognition, pointer flag, qualifier, name vs reference", Bounds: map[string]interface{}{"text_bytes": 24}},
